@@ -96,6 +96,43 @@ def index_idiom(prog, f, idx, depth=0):
     return (None, set(), src)
 
 
+def enum_offset_split(f, idx, depth=0):
+    """`base + k` where k is the running index of a `for (k, item) in <list>.iter().enumerate()` loop around
+    the insertion: (base expression, place of the enumerated list), else None.  Inserting the k-th item at
+    base + k puts the items behind one another starting at base - the forward spelling of inserting them in
+    reverse at the fixed index base."""
+    e = hir.peel(idx)
+    l = hir.local_of(e)
+    if l and depth < 3:
+        b = f.bindings().get(l[0])
+        if b and b["origin"][0] == "let" and b["origin"][1] is not None and not f.assignments_to(l[0]):
+            return enum_offset_split(f, b["origin"][1], depth + 1)
+        return None
+    if e.get("k") != "Binary" or e.get("op") != "Add":
+        return None
+    for off, base in ((e["l"], e["r"]), (e["r"], e["l"])):
+        lo = hir.local_of(hir.peel(off))
+        b = f.bindings().get(lo[0]) if lo else None
+        if not b or b["origin"][0] != "match" or f.assignments_to(lo[0]):
+            continue
+        proj = b["origin"][2] if len(b["origin"]) > 2 else None
+        if [tuple(x) for x in (proj or [])] != [("[]",), ("tuple", "0")]:
+            continue
+        it = b["origin"][1]
+        for _ in range(3):
+            li = hir.local_of(hir.peel(it))
+            bi = f.bindings().get(li[0]) if li else None
+            if bi and bi["origin"][0] == "let" and bi["origin"][1] is not None and not f.assignments_to(li[0]):
+                it = bi["origin"][1]
+            else:
+                break
+        src, chain = _chain(it)
+        names = [c[0] for c in chain if c[0] not in ("into_iter",)]
+        if names == ["iter", "enumerate"]:
+            return base, hir.place(src)
+    return None
+
+
 def run(check):
     R = "VALUESET"
     check.rule(R, "every Vec<Stmt>/Vec<ModuleItem>::insert(index, ..) of the build takes an index that is the count of leading statements satisfying Stmt::can_precede_directive (the whole directive prologue); an index drawn from a finite set of constants, or computed from Stmt::is_use_strict, cannot follow a longer prologue")
@@ -122,6 +159,9 @@ def run(check):
         idx = n["args"][0]
         if n["method"] == "splice":
             idx = _empty_range(idx)
+        sp_ = enum_offset_split(f, idx) if n["method"] == "insert" else None
+        if sp_ is not None:
+            idx = sp_[0]  # base + running index: where the first item goes is what matters here
         os_ = pv.origins(f, idx)
         bad = []
         good = []
@@ -212,7 +252,11 @@ def run(check):
             continue
         loops = [a for a in f.ancestors(n) if a.get("k") == "Loop"]
         ok = False
-        if loops:
+        sp_ = enum_offset_split(f, n["args"][0]) if n["method"] == "insert" else None
+        if sp_ is not None and loops:
+            # forward: the k-th statement goes to base + k
+            ok = (sp_[1] or "").endswith(".file_prefix_code")
+        elif loops:
             lp = loops[0]
             par = f.parent(lp)
             while par is not None and par.get("k") != "Match":
@@ -221,7 +265,7 @@ def run(check):
                 src, chain = _chain(hir.call_args(hir.peel(par["scrut"]))[0]) if hir.is_call(hir.peel(par["scrut"])) else (None, [])
                 names = [c[0] for c in chain]
                 ok = names == ["iter", "rev"] and (hir.place(src) or "").endswith(".file_prefix_code")
-        check.expect(ok, R2, "%s/%s" % (R2, _variant(f, n)), hir.loc(n), "file_prefix_code.iter().rev() with a fixed index", "prefix statements are not inserted by reverse iteration at a fixed index (order of the prologue changes)")
+        check.expect(ok, R2, "%s/%s" % (R2, _variant(f, n)), hir.loc(n), "file_prefix_code in source order (reverse iteration at a fixed index, or the k-th statement at index + k)", "prefix statements are not inserted by reverse iteration at a fixed index nor one behind the other (order of the prologue changes)")
     # a parenthesised string statement `('use strict');` is not a directive: taken out of its parentheses
     # it becomes one and changes the strictness of the function
     from .. import xformrules as _X
@@ -229,6 +273,12 @@ def run(check):
     check.rule("PAREN-KEPT", "no output position receives the bare content of an input ParenExpr: `('use strict');` at the head of a body must not be printed as the directive `'use strict';`")
     check.guarded("PAREN-KEPT", lambda c: _X.rule_hoist_paren(_Only(c, "GROUP", "PAREN-KEPT", ("/paren-strip",))))
     check.guarded("NO-NEW-DIRECTIVE", rule_no_new_directive)
+    # whether a leading string statement is a directive is decided by its *raw* text: `'use \<LF>strict'` and
+    # `'use\x20strict'` have the value `use strict` and are not directives. A string whose raw text is dropped
+    # or rebuilt is printed from its value and can become one (or stop being one)
+    from . import c08 as _c08
+    check.rule("DIRECTIVE-RAW", "the rewriter never constructs a string literal node and never assigns the raw text of one: a leading string statement is printed exactly as written, so what is (not) a directive in the input is (not) one in the output")
+    check.guarded("DIRECTIVE-RAW", lambda c: _c08.rule_raw_text(_Only(c, "RAW-TEXT", "DIRECTIVE-RAW", ("/assigns-Str.", "/constructs-Str", "/scan", "/FLOOR/"))))
     return {
         "explanation": "Value-set analysis of the index argument of every statement-list insertion (provenance of the index through helpers), with the recognised correct idiom `iter().take_while(can_precede_directive).count()` over the same list.",
         "assumptions": ["Stmt::can_precede_directive (swc_ecma_ast) is true exactly for expression statements that are string literals"],
